@@ -393,6 +393,78 @@ pub(crate) fn is_ended_is_stable_under_advance() {
     }
 }
 
+// -- StateAnimatorBuilder + the real EnumMap-backed map ------------------------------------------------
+
+#[derive(Clone, Copy, Debug, Default, PartialEq, Eq, State)]
+pub(crate) enum Es {
+    #[default]
+    A,
+    B,
+    C,
+}
+fn any_es() -> Es {
+    let k: u8 = kani::any();
+    kani::assume(k < 3);
+    match k {
+        0 => Es::A,
+        1 => Es::B,
+        _ => Es::C,
+    }
+}
+
+/// C05/C16 (builder half): `from_state`/`from_values`/`on` configure exactly what `build` hands to
+/// the animator: initial state and values as given (Default otherwise), a timeline for exactly
+/// the states passed to `on` (the latest wins), the initial state's timeline blended from the
+/// initial values; the EnumMap-backed `MapLike` returns each state's own entry.
+#[kani::proof]
+#[kani::unwind(6)]
+#[kani::stub(std::time::Duration::as_secs_f32, crate::verif_dur::as_secs_f32_model)]
+#[kani::stub(std::time::Duration::from_secs_f32, crate::verif_dur::from_secs_f32_model)]
+pub(crate) fn builder_contract() {
+    let s0 = any_es();
+    let v0 = any_vals();
+    let on_a: bool = kani::any();
+    let on_c: bool = kani::any();
+    let set_state: bool = kani::any();
+    let set_values: bool = kani::any();
+    let (ta, tc, tc2) = (AbsTl::any(10), AbsTl::any(30), AbsTl::any(31));
+    let mut b: StateAnimatorBuilder<Es, AbsTl> = StateAnimatorBuilder::new();
+    if set_state {
+        b = b.from_state(s0);
+    }
+    if set_values {
+        b = b.from_values(v0);
+    }
+    if on_a {
+        b = b.on(Es::A, MergedTimeline::of([ta.clone()]));
+    }
+    if on_c {
+        b = b.on(Es::C, MergedTimeline::of([tc.clone()]));
+        b = b.on(Es::C, MergedTimeline::of([tc2.clone()]));
+    }
+    let a = b.build();
+    let want_state = if set_state { s0 } else { Es::A };
+    let want_vals = if set_values { v0 } else { Vals { p: 0, q: 0, z: 0 } };
+    assert!(*a.current_state() == want_state);
+    assert!(*a.current_values() == want_vals);
+    assert!(a.state_duration == Duration::ZERO && a.paused_animation.is_none());
+    let ids = |s: Es| a.timelines.get(&s).map(|m| m.timelines_ref()[0].id);
+    assert!(ids(Es::A) == if on_a { Some(10) } else { None });
+    assert!(ids(Es::B).is_none());
+    assert!(ids(Es::C) == if on_c { Some(31) } else { None });
+    // only the initial state's timeline was blended, from the initial values
+    let started = |s: Es| a.timelines.get(&s).map(|m| (m.timelines_ref()[0].ovr, m.timelines_ref()[0].start_with_calls));
+    for s in [Es::A, Es::C] {
+        if let Some((ovr, calls)) = started(s) {
+            if s == want_state {
+                assert!(ovr == Some(want_vals) && calls == 1);
+            } else {
+                assert!(ovr.is_none() && calls == 0);
+            }
+        }
+    }
+}
+
 // -- vacuity -------------------------------------------------------------------------------------
 
 /// The invariant admits the interesting pre-states.
